@@ -192,9 +192,10 @@ def run(tier, seed):
     # controls: seeded defects in the design spec must violate the invariant meant to exclude them
     from concurrent.futures import ThreadPoolExecutor
     ctl = [] if os.environ.get("C15_SKIP_MC") else CONTROLS
+    dirs = [vlib.scratch("C15", FAMILY) for _ in ctl]       # scratch() is not thread-safe: create the directories first
     with ThreadPoolExecutor(max_workers=6) as ex:
-        res = list(ex.map(lambda c: vlib.tlc("C15", FAMILY, "SchedulerMC", "SchedulerMC_ctl_%s.cfg" % c[0], timeout=300,
-                                             workers=2, heap="2g"), ctl))
+        res = list(ex.map(lambda cd: vlib.tlc("C15", FAMILY, "SchedulerMC", "SchedulerMC_ctl_%s.cfg" % cd[0][0], timeout=300,
+                                              workers=2, heap="2g", sdir=cd[1]), zip(ctl, dirs)))
     for (var, inv), r in zip(ctl, res):
         if r.violation != inv:
             raise vlib.Infra("design-spec control failed: variant %s should violate %s: %s" % (var, inv, r.summary()))
